@@ -24,3 +24,8 @@ void drv_aw_sync(co_awaiter<mutex> *a) { a->sync(); }
 void drv_aw_wait(mutex::ownership *out, co_awaiter<mutex> *a) { new(out) mutex::ownership(a->wait()); }
 void drv_own_from_awaiter(mutex::ownership *out, mutex *m) { new(out) mutex::ownership(m->lock()); }
 }
+// construction / destruction of the mutex itself (induction base of the history lemma: a fresh mutex is unlocked with nothing pending)
+extern "C" {
+void drv_mx_ctor(mutex *m) { new(m) mutex(); }
+void drv_mx_dtor(mutex *m) { m->~mutex(); }
+}
